@@ -206,8 +206,16 @@ fn defect(allow_mixed: bool) -> BoxedStrategy<Defect> {
 
 pub fn fq_rec_spec() -> BoxedStrategy<FqRecSpec> {
     let seq = prop_oneof![1 => Just(vec![]), 8 => vec(seq_byte(), 1..20), 1 => vec(seq_byte(), 20..60)];
-    (header(), seq, vec(qual_byte(), 60), any::<bool>(), prop_oneof![6 => Just(vec![]), 1 => vec(header_byte(), 1..6)])
-        .prop_map(|(head, seq, qual_src, crlf, sep_extra)| FqRecSpec { head, seq, qual_src, crlf, sep_extra })
+    // separator line: bare '+' (usual), '+' followed by arbitrary text, or '+' followed by the repeated header (old style)
+    (header(), seq, vec(qual_byte(), 60), any::<bool>(), prop_oneof![6 => Just(None), 1 => vec(header_byte(), 1..6).prop_map(Some), 1 => Just(Some(vec![]))])
+        .prop_map(|(head, seq, qual_src, crlf, sep)| {
+            let sep_extra = match sep {
+                None => vec![],
+                Some(v) if v.is_empty() => head.iter().cloned().filter(|b| *b != b'\r').collect(),
+                Some(v) => v,
+            };
+            FqRecSpec { head, seq, qual_src, crlf, sep_extra }
+        })
         .boxed()
 }
 
@@ -411,9 +419,13 @@ pub fn any_input(format: Format, allow_mixed: bool) -> BoxedStrategy<B> {
         Format::Fastq => fastq_doc_with(8, allow_mixed),
     };
     prop_oneof![
-        5 => doc.clone(),
-        2 => mutated(format, doc),
-        3 => byte_soup(format),
+        20 => doc.clone(),
+        8 => mutated(format, doc.clone()),
+        12 => byte_soup(format),
+        1 => long_read_doc(format),
+        3 => mutated(format, long_read_doc(format)),
+        1 => magic_prefixed(doc),
+        1 => magic_prefixed(Just(B(vec![])).boxed()),
     ]
     .boxed()
 }
@@ -506,9 +518,11 @@ pub fn chunks() -> BoxedStrategy<Vec<u16>> {
 
 pub fn interrupts() -> BoxedStrategy<Vec<u16>> {
     prop_oneof![
-        6 => Just(vec![]),
-        1 => vec(0u16..60, 1..8),
-        1 => (0u16..40, 1u16..30).prop_map(|(s, n)| (s..s + n).collect()),
+        12 => Just(vec![]),
+        2 => vec(0u16..60, 1..8),
+        2 => (0u16..40, 1u16..30).prop_map(|(s, n)| (s..s + n).collect()),
+        // long bursts of consecutive interrupted reads (retry budgets, counters)
+        1 => (0u16..20, prop_oneof![3 => 95u16..110, 1 => 250u16..262, 1 => 1000u16..1100]).prop_map(|(s, n)| (s..s + n).collect()),
     ]
     .boxed()
 }
@@ -537,6 +551,17 @@ pub fn policy_permissive() -> BoxedStrategy<PolKind> {
         2 => (1u32..64).prop_map(PolKind::DoubleUntil),
         2 => (1u16..8).prop_map(PolKind::Add),
         1 => (1u32..64).prop_map(|t| PolKind::DoubleUntilLimited(t, 1 << 30)),
+    ]
+    .boxed()
+}
+
+/// Policies whose growth steps are thousands of bytes (for documents with long records)
+pub fn policy_big_steps() -> BoxedStrategy<PolKind> {
+    prop_oneof![
+        3 => prop_oneof![1000u16..4096, 4096u16..20000, Just(4096u16), Just(5000u16)].prop_map(PolKind::Add),
+        2 => (1000u32..10000).prop_map(PolKind::DoubleUntil),
+        2 => (1000u32..10000, 2000u32..20000).prop_map(|(t, l)| PolKind::DoubleUntilLimited(t, l)),
+        1 => (300u32..6000).prop_map(PolKind::RefuseAbove),
     ]
     .boxed()
 }
@@ -572,60 +597,107 @@ pub fn term_kind(m: &Model) -> &'static str {
 // ------------------------------------------------------------------------------------------------
 // big documents (tens of kilobytes, hundreds of records, capacities up to the 64 KiB default)
 
-pub fn big_input(format: Format) -> BoxedStrategy<B> {
-    let rec = (prop_oneof![8 => 1usize..12, 1 => 240usize..270], prop_oneof![3 => 0usize..80, 2 => 80usize..400, 1 => 400usize..3000], any::<u8>());
-    (prop_oneof![4 => vec(rec.clone(), 20..200), 1 => vec((1usize..4, 0usize..12, any::<u8>()), 250..700)], endings(), any::<bool>(), prop_oneof![1 => Just(60usize), 1 => Just(70usize), 1 => 1usize..200], prop::option::weighted(0.3, any::<u16>()))
-        .prop_map(move |(recs, e, final_term, width, truncate)| {
-            let mut out = Vec::new();
-            let mut bit = 0usize;
-            let mut term = |out: &mut Vec<u8>| {
-                bit += 1;
+pub fn render_big(format: Format, recs: &[(usize, usize, u8)], e: Endings, final_term: bool, width: usize) -> Vec<u8> {
+    let mut out = Vec::new();
+    let mut bit = 0usize;
+    let mut term = |out: &mut Vec<u8>| {
+        bit += 1;
+        let crlf = match e {
+            Endings::Lf => false,
+            Endings::Crlf => true,
+            Endings::Mixed => bit % 3 == 0,
+        };
+        if crlf {
+            out.push(b'\r');
+        }
+        out.push(b'\n');
+    };
+    for (i, (idlen, slen, salt)) in recs.iter().enumerate() {
+        let id: Vec<u8> = format!("r{}_{}", i, "x".repeat(*idlen)).into_bytes();
+        let seq: Vec<u8> = (0..*slen).map(|k| b"ACGTN"[(k + *salt as usize + i) % 5]).collect();
+        match format {
+            Format::Fasta => {
+                out.push(b'>');
+                out.extend_from_slice(&id);
+                term(&mut out);
+                for l in seq.chunks(width) {
+                    out.extend_from_slice(l);
+                    term(&mut out);
+                }
+            }
+            Format::Fastq => {
+                // per record one ending (never mixed inside a record)
                 let crlf = match e {
                     Endings::Lf => false,
                     Endings::Crlf => true,
-                    Endings::Mixed => bit % 3 == 0,
+                    Endings::Mixed => i % 2 == 0,
                 };
-                if crlf {
-                    out.push(b'\r');
-                }
-                out.push(b'\n');
-            };
-            for (i, (idlen, slen, salt)) in recs.iter().enumerate() {
-                let id: Vec<u8> = format!("r{}_{}", i, "x".repeat(*idlen)).into_bytes();
-                let seq: Vec<u8> = (0..*slen).map(|k| b"ACGTN"[(k + *salt as usize + i) % 5]).collect();
-                match format {
-                    Format::Fasta => {
-                        out.push(b'>');
-                        out.extend_from_slice(&id);
-                        term(&mut out);
-                        for l in seq.chunks(width) {
-                            out.extend_from_slice(l);
-                            term(&mut out);
-                        }
-                    }
-                    Format::Fastq => {
-                        // per record one ending (never mixed inside a record)
-                        let crlf = match e {
-                            Endings::Lf => false,
-                            Endings::Crlf => true,
-                            Endings::Mixed => i % 2 == 0,
-                        };
-                        let t: &[u8] = if crlf { b"\r\n" } else { b"\n" };
-                        out.push(b'@');
-                        out.extend_from_slice(&id);
-                        out.extend_from_slice(t);
-                        out.extend_from_slice(&seq);
-                        out.extend_from_slice(t);
-                        out.push(b'+');
-                        out.extend_from_slice(t);
-                        out.extend(std::iter::repeat(b'I').take(seq.len()));
-                        out.extend_from_slice(t);
-                    }
-                }
+                let t: &[u8] = if crlf { b"\r\n" } else { b"\n" };
+                out.push(b'@');
+                out.extend_from_slice(&id);
+                out.extend_from_slice(t);
+                out.extend_from_slice(&seq);
+                out.extend_from_slice(t);
+                out.push(b'+');
+                out.extend_from_slice(t);
+                out.extend(std::iter::repeat(b'I').take(seq.len()));
+                out.extend_from_slice(t);
             }
-            if !final_term {
-                while matches!(out.last(), Some(b'\n') | Some(b'\r')) {
-                    out.pop();
+        }
+    }
+    if !final_term {
+        while matches!(out.last(), Some(b'\n') | Some(b'\r')) {
+            out.pop();
+        }
+    }
+    out
+}
+
+/// Few records with long lines (sequence 100..1500 bytes, lengths around 128 / 256 / 1024 over-weighted): the
+/// sizes at which parsers switch to vectorised searches or shortcuts.
+pub fn long_read_doc(format: Format) -> BoxedStrategy<B> {
+    let slen = prop_oneof![3 => 100usize..300, 1 => 120usize..136, 1 => 250usize..262, 2 => 1000usize..1100, 2 => 300usize..1500, 3 => 0usize..3];
+    (vec((1usize..6, slen, any::<u8>()), 1..5), endings(), any::<bool>(), prop_oneof![2 => Just(100000usize), 1 => 40usize..400], prop_oneof![3 => Just(0usize), 1 => 1usize..3])
+        .prop_map(move |(recs, e, final_term, width, lead)| {
+            let mut v = if format == Format::Fasta { vec![b'\n'; lead] } else { vec![] };
+            v.extend_from_slice(&render_big(format, &recs, e, final_term, width));
+            B(v)
+        })
+        .boxed()
+}
+
+/// Inputs that start with the signature of another file type (byte order marks, gzip, ...) in front of an
+/// otherwise ordinary document: the parser has to treat these bytes like any others.
+pub fn magic_prefixed(doc: BoxedStrategy<B>) -> BoxedStrategy<B> {
+    let magic: &'static [&'static [u8]] = &[b"\xef\xbb\xbf", b"\xff\xfe", b"\xfe\xff", b"\x1f\x8b", b"\xef\xbb", b"\xef", b"\xef\xbb\xbf\xef\xbb\xbf", b"\n\xef\xbb\xbf", b"\x00", b"BZh", b"\x28\xb5\x2f\xfd", b"#", b";"];
+    (prop::sample::select(magic), doc)
+        .prop_map(|(m, d)| {
+            let mut v = m.to_vec();
+            v.extend_from_slice(&d.0);
+            B(v)
+        })
+        .boxed()
+}
+
+pub fn big_input(format: Format) -> BoxedStrategy<B> {
+    let rec = (prop_oneof![8 => 1usize..12, 1 => 240usize..270], prop_oneof![3 => 0usize..80, 2 => 80usize..400, 1 => 400usize..3000], any::<u8>());
+    (prop_oneof![4 => vec(rec.clone(), 20..200), 1 => vec((1usize..4, 0usize..12, any::<u8>()), 250..700)], endings(), any::<bool>(), prop_oneof![1 => Just(60usize), 1 => Just(70usize), 1 => 1usize..200], prop::option::weighted(0.3, any::<u16>()), prop::option::weighted(0.3, (any::<u16>(), 0u8..6)))
+        .prop_map(move |(recs, e, final_term, width, truncate, point)| {
+            let mut out = render_big(format, &recs, e, final_term, width);
+            // one point defect somewhere in the document (most bytes belong to long records)
+            if let Some((p, kind)) = point {
+                if !out.is_empty() {
+                    let i = idx(p, out.len());
+                    match kind % 6 {
+                        0 => out[i] = b'\n',
+                        1 => {
+                            out.remove(i);
+                        }
+                        2 => out.insert(i, b'\n'),
+                        3 => out[i] = if format == Format::Fasta { b'>' } else { b'@' },
+                        4 => out.insert(i, b'A'),
+                        _ => out[i] = b'\r',
+                    }
                 }
             }
             if let Some(t) = truncate {
